@@ -52,6 +52,15 @@ pub fn run_model(lines: &[String]) -> Vec<String> {
         .collect()
 }
 
+/// Splits the specification verdict (` spec=<expected answer with | for spaces>`) off a
+/// model answer (after `split_branch`).
+pub fn split_spec(ans: &str) -> (String, Option<String>) {
+    match ans.rsplit_once(" spec=") {
+        Some((a, b)) => (a.to_string(), if b == "-" { None } else { Some(b.replace('|', " ")) }),
+        None => (ans.to_string(), None),
+    }
+}
+
 /// Splits the coverage tag (` br=<tag>`) off a model answer.
 pub fn split_branch(ans: &str) -> (String, Option<String>) {
     match ans.rsplit_once(" br=") {
